@@ -3,7 +3,7 @@ from runner import Ob
 from props.common import run_with
 
 NEEDS_LEXER = False
-FUNCS = ["cfg_getopt_secidx", "parse_title", "cfg_opt_gettsecidx", "cfg_opt_getnsec", "cfg_getopt_leaf", "cfg_getopt", "cfg_getsec", "cfg_rmsec", "cfg_opt_rmnsec", "cfg_setint"]
+FUNCS = ["cfg_getopt_array", "cfg_getopt_secidx", "parse_title", "cfg_opt_gettsecidx", "cfg_opt_getnsec", "cfg_getopt_leaf", "cfg_getopt", "cfg_getsec", "cfg_rmsec", "cfg_opt_rmnsec", "cfg_setint"]
 
 # N name byte, Q unquoted qualifier byte, q quoted byte, e escaped byte (' or \), x byte after a bad backslash
 SHAPES_OPT = ["N", "N|N", "N=Q|N", "N='q'|N", "N='e'|N", "N|N|N", "|N", "N|", "N||N", "=", "N=", "N=|N", "=N", "N='q|N", "N='\\\\x'|N", "N='q'N", "N=Q", "N=QQ|N", "N='\\\\e'|N", "N='qq'|N", "N|N=Q|N", "N|N=|N"]
@@ -34,6 +34,11 @@ def build_obs(tier, tables=None):
     # (cfg_opt_rmnsec, cfg_opt_setnint: C09).  With a symbolic target the release of a whole section /
     # the reset of defaults gives no verdict within 300 s (FN=3/4 of the harness), so the composition of
     # these two-line wrappers is outside the machine-checked claim in both tiers.
+    # the schema-level resolver behind cfg_set_validate_func(): a step into a multi section addresses the
+    # declarations every instance is copied from, a step into a single section its one instance
+    uw = ["cfg_getopt_array.0:3", "cfg_getopt_array.1:4", "strcpy.0:6", "strlen.0:6", "strcmp.0:5", "strcspn.0:5", "strcspn.1:3", "strspn.0:5", "strspn.1:3", "v_strndup8.0:9", "alloc_values.0:3", "main.0:5"]
+    obs.append(Ob("c11-register-path", "reg_step.c", [], unwind=3, unwindset=uw, checks="none", must_reach=("end of harness", "hit", "miss")))
+    obs.append(Ob("c11-register-plain", "reg_step.c", ["-DPLAIN"], unwind=3, unwindset=uw, checks="none", must_reach=("end of harness", "hit", "miss")))
     if tier != "quick":
         for sh in ("N=QQQ|N", "N='qqq'|N", "N|N|N=Q"):
             add(1, sh)
@@ -47,7 +52,7 @@ def run(tier, seed):
         "C11", tier, seed, build_obs, functions=FUNCS,
         bounds="shaped paths: the positions of '|', '=', quotes and backslashes are a concrete obligation parameter (39 shapes incl. leading/trailing/doubled separators, stray '=', empty qualifier, unterminated quote, bad escape, text glued to a closing quote), every other byte symbolic; tree: root {int, single section, multi section x2, titled multi section x2} with 2 sub-options per instance; entry points cfg_getopt and cfg_getsec",
         assumptions=[
-            "oracle = stepwise walk with single-level look-ups written in the harness; index qualifiers other than plain decimal numerals are grey (lenient strtol)",
+            "oracle = stepwise walk with single-level look-ups written in the harness; index qualifiers that the lenient strtol(.., 0) may still take as numbers (leading blank or sign, octal, hex) are grey; a digit 1-9 followed by a non-digit is definitely not a number",
             "strdup/strndup modelled with a fixed 8-byte capacity (functional agreement only); unshaped arbitrary paths, deeper trees and long names are outside the claim",
             "termination = the resolver's loop is unwound (number of segments + 1) times under unwinding assertions",
             "by-path setters and removers are the same resolver call followed by the single-level mutators checked under C09; their composition is not machine-checked (no verdict within the solver budget when the target is symbolic)",
